@@ -142,6 +142,11 @@ class BuiltinMixin:
                     # int() of a digit string (callers pass regex group text made of \d+)
                     self.trusted.add("engine: int(s) on a non-empty all-digit string s is z3 str.to_int(s)")
                     r = z3.StrToInt(v)
+                    if v.sexpr() in getattr(self, "digit_terms", ()):
+                        # the text of a (\\d+) capture group: a non-empty ASCII digit string, int() cannot fail
+                        self.trusted.add("re: the text captured by a (\\d+) group is a non-empty digit string (int() of it is >= 0)")
+                        run.assume(r >= 0)
+                        return r
                     if not fr.spec and not run.branch(r >= 0):
                         self.py_raise("ValueError")
                     return r
@@ -339,6 +344,9 @@ class BuiltinMixin:
         if name == "opt_val":
             v = args[0]
             return v.val if isinstance(v, OptV) else v
+        if name in ("py_strip", "py_lower", "py_upper"):
+            from . import strings
+            return strings.str_method(self, args[0], name[3:], [], {}, fr)
         if name == "iter_pos":
             return args[0].pos
         if name == "strlen":
@@ -441,6 +449,9 @@ class BuiltinMixin:
         if isinstance(recv, RegexV):
             from . import strings
             return strings.regex_method(self, recv, name, args, kwargs, fr)
+        if isinstance(recv, MatchV):
+            from . import strings
+            return strings.match_method(self, recv, name, args, kwargs, fr)
         if isinstance(recv, NdV):
             from . import models
             return models.nd_method(self, recv, name, args, kwargs, fr)
